@@ -14,4 +14,7 @@ ASSUMED = [
     "A-DEFAULT-CANON: one canonical default object per field stands for the freshly created default in read-only code",
 ]
 from pyvc.check import standin_bounded
-BOUNDED = [standin_bounded("C09")]
+from pyvc.check import external_bounded
+BOUNDED = [standin_bounded("C09"),
+           external_bounded("deep-schema:C09", "standin.deep", ["C09", "--n", "150"], ["C09", "--n", "800"],
+                            "nested schema (containers of oneof-carrying / field-less messages, two-level lazy parents, float maps, Duration JSON strings); observation-based oracle")]
